@@ -287,7 +287,7 @@ void MEDDLY::copy_MT::_compute(int L, unsigned in,
         //
 
         unpacked_node* Cu = nullptr;
-        if (can_use_relation_nodes) {
+        if (Alevel>0 && can_use_relation_nodes) {
             //
             // Use relation nodes for relations, so we can copy
             // any implicit representation to MxDs
